@@ -125,6 +125,32 @@ def run(ctx):
             if i.name in ("Constant", "SpecConstant", "Switch"):
                 reqs.append("asm " + i.text())
 
+    # every result-producing opcode as the definer of a switch selector: %200 = OpTypeInt 64 0; %201 = <op> %200 ...;
+    # OpSwitch %201 %9 <64-bit literal> %9 — the case literal has two words whatever opcode propagated the type
+    L32 = g.vix["LiteralBit32"]
+    nsweep = 0
+    for e in g.core:
+        kinds = [k for k, _ in e["ops"]]
+        if "IdResultType" not in kinds or "IdResult" not in kinds or e["name"] in ("Constant", "SpecConstant", "SpecConstantOp"):
+            continue
+        try:
+            d = g.inst(e)
+        except Exception:
+            continue
+        d.rtype, d.rid = 200, 201
+        lit = g.literal(True)
+        sw = instgen.Inst(g.opv["Switch"], "Switch", None, None,
+                          [instgen.Op("w", g.vix["IdRef"], 201), instgen.Op("w", g.vix["IdRef"], 9)] + lit + [instgen.Op("w", g.vix["IdRef"], 9)])
+        insts = [instgen.Inst(g.opv["TypeInt"], "TypeInt", None, 200, [instgen.Op("w", L32, 64), instgen.Op("w", L32, 0)]), d, sw]
+        words = instgen.header()
+        for i in insts:
+            words += i.words()
+        r = "parse " + instgen.to_bytes(words).hex()
+        reqs.append(r)
+        metas[r] = (insts, ["switch:1x2"])
+        nsweep += 1
+    ctx.coverage["definer_opcodes_swept"] = nsweep
+
     def oracle(req, resp):
         if resp.startswith("panic"):
             return "panicked: " + resp[6:80]
